@@ -2,6 +2,7 @@
 package main
 
 import (
+	"errors"
 	"fmt"
 	"runtime"
 	"sync/atomic"
@@ -431,6 +432,66 @@ func nilIfaceScenario(arity, n int) schk.Scenario {
 	}
 }
 
+// errResultScenario: the one invocation returns a NON-nil error as its last result (a failed
+// initialisation is still THE invocation: no other function may run, everybody gets that error).
+func errResultScenario(arity, n int) schk.Scenario {
+	type erec struct {
+		runs int
+		ok   []bool
+	}
+	boom := errors.New("initialisation failed")
+	return schk.Scenario{
+		Name: fmt.Sprintf("Once%d[...,error]/%d-callers/the-invocation-returns-a-non-nil-error", arity, n), Bound: -1, RaceBound: 1,
+		Body: func(s *vrt.Sched) any {
+			r := &erec{ok: make([]bool, n)}
+			var do func() bool
+			switch arity {
+			case 1:
+				o := new(sync2.Once1[error])
+				do = func() bool {
+					return o.Do(func() error { r.runs++; vrt.Yield("action", unsafe.Pointer(r), true); return boom }) == boom
+				}
+			case 2:
+				o := new(sync2.Once2[int, error])
+				do = func() bool {
+					a, b := o.Do(func() (int, error) { r.runs++; vrt.Yield("action", unsafe.Pointer(r), true); return 5, boom })
+					return a == 5 && b == boom
+				}
+			default:
+				o := new(sync2.Once3[int, string, error])
+				do = func() bool {
+					a, b, c := o.Do(func() (int, string, error) {
+						r.runs++
+						vrt.Yield("action", unsafe.Pointer(r), true)
+						return 5, "x", boom
+					})
+					return a == 5 && b == "x" && c == boom
+				}
+			}
+			for i := 0; i < n; i++ {
+				i := i
+				s.Spawn(fmt.Sprintf("caller%d", i), func() { r.ok[i] = do() && do() })
+			}
+			return r
+		},
+		Check: func(x *vrt.Exec, obs any) (*schk.Fail, string) {
+			r := obs.(*erec)
+			if x.Panic != "" || x.Deadlock {
+				return nil, "abnormal"
+			}
+			if r.runs != 1 {
+				return schk.Failf("not-exactly-once", "functions whose last result is a non-nil error were invoked %d times in total, want exactly 1", r.runs), ""
+			}
+			for i, ok := range r.ok {
+				if !ok {
+					return schk.Failf("wrong-result", "caller %d did not get the results (incl. the error) of the one invocation", i), ""
+				}
+			}
+			return nil, "ok"
+		},
+	}
+}
+
 func main() {
 	r := ev.Start("C17")
 	var scs []schk.Scenario
@@ -452,6 +513,7 @@ func main() {
 		scs = append(scs, nilScenario(arity, 2), nilScenario(arity, 3))
 		scs = append(scs, zeroScenario(arity, 1), zeroScenario(arity, 2))
 		scs = append(scs, nilIfaceScenario(arity, 1), nilIfaceScenario(arity, 2))
+		scs = append(scs, errResultScenario(arity, 1), errResultScenario(arity, 2))
 	}
 	// many Once values in use at the same time (state shared between distinct values)
 	scs = append(scs, chainScenario(1, 70, -1), chainScenario(1, 300, -1), chainScenario(2, 70, ev.Pick(r, 1, 2)), chainScenario(2, 2, -1), chainScenario(3, 2, 2))
